@@ -1,7 +1,7 @@
 import json, os, re, subprocess
 
 SPEC = {
-    "lean_modules": ["SemaModel.C06.Props", "SemaModel.C06.Tie", "SemaModel.C06.Formula"],
+    "lean_modules": ["SemaModel.C06.Props", "SemaModel.C06.Tie", "SemaModel.C06.Formula", "SemaModel.C06.Paging"],
     "lean_dirs": ["SemaModel/C06"],
     "harness": "c06",
     "harness_args": {"quick": ["-n", 200, "-q", 25], "thorough": ["-n", 2500, "-q", 30]},
@@ -18,7 +18,7 @@ SPEC = {
         "Sema.C06.C06_cmp_preorder", "Sema.C06.C06_sortcmp_preorder", "Sema.C06.C06_sort_exists", "Sema.C06.C06_missing_last",
         "Sema.C06.C06_sort_ties", "Sema.C06.C06_cmp_same_kind", "Sema.C06.C06_cmp_numeric", "Sema.C06.C06_cmp_integers",
         "Sema.C06.C06_float_value_order", "Sema.C06.C06_cmp_cross_kind", "Sema.C06.C06_sort_numeric",
-        "Sema.C06.C06_page", "Sema.C06.C06_page_overflow_witness", "Sema.C06.C06_page_repaired",
+        "Sema.C06.C06_page", "Sema.C06.C06_page_overflow_witness", "Sema.C06.C06_page_repaired", "Sema.C06.C06_pages_tile", "Sema.C06.C06_pages_prefix",
         "Sema.C06.C06_tree", "Sema.C06.C06_answer", "Sema.C06.C06_search_page",
     ],
     "trusted_base": [
